@@ -74,7 +74,7 @@ func (r *BufferReader) ReadWire(l int) (Wire, error) {
 	if r.pos >= len(r.buf) && l > 0 {
 		return nil, io.EOF
 	}
-	if r.pos+l > len(r.buf) {
+	if l < 0 || l > len(r.buf)-r.pos {
 		return nil, io.ErrUnexpectedEOF
 	}
 	p := r.pos
@@ -83,7 +83,7 @@ func (r *BufferReader) ReadWire(l int) (Wire, error) {
 }
 
 func (r *BufferReader) ReadBuf(l int) (Buffer, error) {
-	if r.pos+l > len(r.buf) {
+	if l < 0 || l > len(r.buf)-r.pos {
 		return nil, io.ErrUnexpectedEOF
 	}
 	p := r.pos
@@ -107,7 +107,7 @@ func (r *BufferReader) Range(start, end int) Wire {
 }
 
 func (r *BufferReader) Delegate(l int) ParseReader {
-	if l < 0 || r.pos+l > len(r.buf) {
+	if l < 0 || l > len(r.buf)-r.pos {
 		return NewBufferReader([]byte{})
 	}
 	subBuf := r.buf[r.pos : r.pos+l]
